@@ -559,8 +559,6 @@ impl Graph {
                     .is_some()
             })
             .collect::<Vec<_>>();
-        // Don't remove the graph root (only happens when there are no leaves)
-        visit_stack.push(graph.root);
         let mut reach_accept = visit_stack.iter().cloned().collect::<HashSet<_>>();
         while let Some(state) = visit_stack.pop() {
             // Traverse the graph backwards to include any parents of visited nodes in the set of
@@ -583,6 +581,10 @@ impl Graph {
 
             state_data.backward.clear();
         }
+
+        // Don't remove the graph root. It is dead itself when there are no leaves or when no leaf
+        // can match anything; its edges, a loop back to itself included, are gone by now.
+        reach_accept.insert(graph.root);
 
         // And then remove dead states from the graph entirely.
         graph.retain_states(&reach_accept, true);
